@@ -44,6 +44,16 @@ P = {
              "with what the real parser hands to the time validator; every other numeric protocol limit is varied in "
              "turn and must not change any outcome.",
         ref="DESIGN.md 3 C09"),
+    "C10": dict(
+        level="model_checking", engine="composer",
+        technique="TLA+ document state machine (Composer.tla) checked by TLC; every explored edge replayed into "
+                  "doccomposer.ApplyPatches; TLC trace validation of random real patch sequences",
+        text="Composer.tla transcribes the per-action semantics (insert-or-replace keeping order, remove ignoring "
+             "unknown ids, ordered set union / difference, replace forgetting everything, RFC 6902 on further members) "
+             "and the left fold with atomic failure. TLC explores the document graph, checks UniqueIds on every "
+             "document, and every explored edge is replayed into the real composer with the whole projected document "
+             "compared; random patch sequences over a larger universe are validated by TLC as oracle.",
+        ref="DESIGN.md 3 C10"),
     "C12": dict(
         level="model_checking", engine="applier+composer",
         technique="TLC-enumerated edges of Applier.tla (and Composer.tla) replayed with deep input digests taken before and "
